@@ -40,3 +40,23 @@ Example C27_nonvacuous :
   handle_set (tbl_store (tbl_store [] (split [97;47;35]) 1) (split [98]) 2) [97;47;120] = [1] /\
   handle_set (tbl_remove (tbl_store [] (split [97;47;35]) 1) (split [97;47;35])) [97;47;120] = [].
 Proof. vm_compute. repeat split. Qed.
+
+(* ------------------------------------------------------------------ the client step *)
+From Verif.Codec Require Import Packets.
+From Verif.Client Require Import ClTypes ClStep Sound_Client Sound_C27b.
+From Verif.Checkers Require Import ChkCl ChkCl5.
+
+(* On EVERY step of the client model, from ANY state: a callback that runs belongs to a current
+   subscription whose filter matches the resolved topic of the PUBLISH being delivered, at most one
+   callback runs per message (chk_C27, clauses 1-4) ... *)
+Theorem C27_step_only_matching_callbacks :
+  forall cfg s ev, chk_C27 cfg s ev (snd (cl_step cfg s ev)) = nil.
+Proof. exact chk_C27_sound. Qed.
+Print Assumptions C27_step_only_matching_callbacks.
+
+(* ... and a PUBLISH that a live client delivers (QoS 0/1 on receipt, QoS 2 on PUBREL) whose resolved
+   topic matches at least one current subscription does invoke a callback in that step (chk_C27b). *)
+Theorem C27_step_delivered_message_invokes_a_callback :
+  forall cfg s ev, chk_C27b cfg s ev (snd (cl_step cfg s ev)) = nil.
+Proof. exact chk_C27b_sound. Qed.
+Print Assumptions C27_step_delivered_message_invokes_a_callback.
